@@ -35,38 +35,21 @@ Qed.
 Lemma filter_split {A} (q : A -> bool) l : length l = (length (filter q l) + length (filter (fun x => negb (q x)) l))%nat.
 Proof. induction l as [|x l IH]; simpl; [reflexivity|]. destruct (q x); simpl; lia. Qed.
 
+Lemma nodup_app_disj {A} (l l' : list A) :
+  NoDup l -> NoDup l' -> (forall x, In x l -> ~ In x l') -> NoDup (l ++ l').
+Proof.
+  induction l as [|a l IH]; simpl; intros H H' Hd; [assumption|].
+  inv H. constructor.
+  - intros Hin. apply in_app_iff in Hin. destruct Hin as [Hin|Hin]; [contradiction|]. eapply Hd; [left; reflexivity|exact Hin].
+  - apply IH; auto; intros x Hx; apply Hd; right; assumption.
+Qed.
+
 Lemma nodup_app_filter (S S' : list nat) :
   NoDup S -> NoDup S' -> NoDup (S' ++ filter (fun x => negb (existsb (Nat.eqb x) S')) S).
 Proof.
-  intros HS HS'. induction S' as [|y S' IH] in HS' |- *.
-  - simpl. apply NoDup_filter. assumption.
-  - assert (Hgen : forall L : list nat, NoDup L -> (forall x, In x L -> ~ In x (filter (fun x => negb (existsb (Nat.eqb x) L)) S))).
-    { intros L _ x Hx Hf. apply filter_In in Hf. destruct Hf as [_ Hf]. apply negb_true_iff in Hf.
-      assert (existsb (Nat.eqb x) L = true) by (apply existsb_exists; exists x; split; [assumption|apply Nat.eqb_refl]). congruence. }
-    clear IH. revert Hgen. generalize (y :: S') as L, HS'. intros L HL Hgen.
-    induction L as [|z L IHL]; simpl.
-    + apply NoDup_filter. assumption.
-    + inv HL. constructor.
-      * intros Hin. apply in_app_iff in Hin. destruct Hin as [Hin|Hin]; [contradiction|].
-        eapply Hgen; [left; reflexivity|exact Hin].
-      * (* the tail: filter with the larger exclusion list is a sub-list of the filter with the smaller one *)
-        assert (Hincl : forall x, In x (filter (fun x => negb (existsb (Nat.eqb x) (z :: L))) S) ->
-                                  In x (filter (fun x => negb (existsb (Nat.eqb x) L)) S)).
-        { intros x Hx. apply filter_In in Hx. destruct Hx as [Hx1 Hx2]. apply filter_In. split; [assumption|].
-          simpl in Hx2. apply negb_true_iff in Hx2. apply orb_false_iff in Hx2. destruct Hx2 as [_ Hx2]. rewrite Hx2. reflexivity. }
-        assert (Hnd : NoDup (L ++ filter (fun x => negb (existsb (Nat.eqb x) L)) S)).
-        { apply IHL; [assumption|]. intros x Hx Hf. apply filter_In in Hf. destruct Hf as [_ Hf]. apply negb_true_iff in Hf.
-          assert (existsb (Nat.eqb x) L = true) by (apply existsb_exists; exists x; split; [assumption|apply Nat.eqb_refl]). congruence. }
-        (* NoDup (L ++ F') where F' ⊆ F as a filtered sub-list *)
-        clear - Hnd Hincl HS.
-        assert (Hf' : NoDup (filter (fun x => negb (existsb (Nat.eqb x) (z :: L))) S)) by (apply NoDup_filter; assumption).
-        revert Hnd. generalize (filter (fun x => negb (existsb (Nat.eqb x) L)) S) as F.
-        revert Hincl Hf'. generalize (filter (fun x => negb (existsb (Nat.eqb x) (z :: L))) S) as F'.
-        intros F' Hincl Hf' F Hnd.
-        induction L as [|w L IHL2]; simpl in *; [assumption|].
-        inv Hnd. constructor.
-        -- intros Hin. apply H1. apply in_app_iff in Hin. apply in_app_iff. destruct Hin; [left; assumption|right; auto].
-        -- apply IHL2. assumption.
+  intros HS HS'. apply nodup_app_disj; [assumption|apply NoDup_filter; assumption|].
+  intros x Hx Hf. apply filter_In in Hf. destruct Hf as [_ Hf]. apply negb_true_iff in Hf.
+  assert (existsb (Nat.eqb x) S' = true) by (apply existsb_exists; exists x; split; [assumption|apply Nat.eqb_refl]). congruence.
 Qed.
 
 Lemma quorum_intersection n f m (S S' F : list nat) :
@@ -136,6 +119,12 @@ Ltac guards H :=
          | (_ && _ = true) => let H1 := fresh H in let H2 := fresh H in apply andb_true_iff in H; destruct H as [H1 H2]; try guards H1; try guards H2
          end.
 
+Ltac lock_none :=
+  match goal with
+  | H : match lock ?x with Some _ => false | None => true end = true |- _ =>
+      let El := fresh "El" in destruct (lock x) eqn:El; [discriminate H|]
+  end.
+
 (* a step by validator i that leaves lock and acc of everybody else alone and adds messages [e] *)
 Lemma inv_setn s i x e :
   Inv s ->
@@ -171,30 +160,28 @@ Lemma step_inv s a s' : Inv s -> step p s a = Some s' -> Inv s'.
 Proof.
   intros I Hs. destruct a as [i b|i b|i|i|i|i v|i m|m]; simpl in Hs.
   - (* APropose *)
-    match type of Hs with (if ?g then _ else _) = _ => destruct g eqn:G; [|discriminate] end. inv Hs. guards G.
+    match type of Hs with (if ?g then _ else _) = _ => destruct g eqn:G; [|discriminate] end. inv Hs. guards G. lock_none.
     apply inv_setn; simpl; auto.
     + intros m [<-|H]; auto.
     + intros m [<-|[]]. simpl. split; [reflexivity|apply Nat.ltb_lt; assumption].
     + intros _ v b0 [H|[]]. discriminate.
-    + intros Hh v b0 Hm. rewrite (j_lock _ I _ _ _ Hh Hm) in G1. discriminate.
+    + intros Hh v b0 Hm. rewrite (j_lock _ I _ _ _ Hh Hm) in El. discriminate.
     + intros _ b0 E. inv E. assumption.
-    + intros Hh v b0 E. apply (j_lockv _ I _ _ _ Hh E).
-    + intros Hh b0 E. destruct (j_acc _ I _ _ Hh E) as (v & S & H1 & H2 & H3). exists v, S. repeat split; auto.
-      intros j Hj. right. auto.
+    + intros Hh v b0 E; first [discriminate E | apply (j_lockv _ I _ _ _ Hh E)].
+    + intros Hh b0 E. destruct (j_acc _ I _ _ Hh E) as (v & S & H1 & H2 & H3). exists v, S; repeat split; auto; intros j Hj; right; auto.
   - (* ARespond *)
-    match type of Hs with (if ?g then _ else _) = _ => destruct g eqn:G; [|discriminate] end. inv Hs. guards G.
+    match type of Hs with (if ?g then _ else _) = _ => destruct g eqn:G; [|discriminate] end. inv Hs. guards G. try lock_none.
     apply inv_setn; simpl; auto.
     + intros m [<-|H]; auto.
     + intros m [<-|[]]. simpl. split; [reflexivity|apply Nat.ltb_lt; assumption].
     + intros _ v b0 [H|[]]. discriminate.
-    + intros Hh v b0 Hm. rewrite (j_lock _ I _ _ _ Hh Hm) in G2. discriminate.
+    + intros Hh v b0 Hm. rewrite (j_lock _ I _ _ _ Hh Hm) in El. discriminate.
     + intros _ b0 E. inv E. assumption.
-    + intros Hh v b0 E. apply (j_lockv _ I _ _ _ Hh E).
-    + intros Hh b0 E. destruct (j_acc _ I _ _ Hh E) as (v & S & H1 & H2 & H3). exists v, S. repeat split; auto.
-      intros j Hj. right. auto.
+    + intros Hh v b0 E; first [discriminate E | apply (j_lockv _ I _ _ _ Hh E)].
+    + intros Hh b0 E. destruct (j_acc _ I _ _ Hh E) as (v & S & H1 & H2 & H3). exists v, S; repeat split; auto; intros j Hj; right; auto.
   - (* ACommit *)
     destruct (prop (nodes s i)) as [b|] eqn:Ep; [|discriminate]. destruct (lock (nodes s i)) eqn:El; [discriminate|].
-    match type of Hs with (if ?g then _ else _) = _ => destruct g eqn:G; [|discriminate] end. inv Hs. guards G.
+    match type of Hs with (if ?g then _ else _) = _ => destruct g eqn:G; [|discriminate] end. inv Hs. guards G. try lock_none.
     apply inv_setn; simpl; auto.
     + intros m [<-|H]; auto.
     + intros m [<-|[]]. simpl. split; [reflexivity|apply Nat.ltb_lt; assumption].
@@ -202,37 +189,34 @@ Proof.
     + intros Hh v b0 Hm. rewrite (j_lock _ I _ _ _ Hh Hm) in El. discriminate.
     + intros Hh b0 E. apply (j_prop _ I _ _ Hh). congruence.
     + intros Hh v b0 E. inv E. apply (j_prop _ I _ _ Hh Ep).
-    + intros Hh b0 E. destruct (j_acc _ I _ _ Hh E) as (v & S & H1 & H2 & H3). exists v, S. repeat split; auto.
-      intros j Hj. right. auto.
+    + intros Hh b0 E. destruct (j_acc _ I _ _ Hh E) as (v & S & H1 & H2 & H3). exists v, S; repeat split; auto; intros j Hj; right; auto.
   - (* AAccept *)
     destruct (prop (nodes s i)) as [b|] eqn:Ep; [|discriminate]. destruct (acc (nodes s i)) eqn:Ea; [discriminate|].
-    match type of Hs with (if ?g then _ else _) = _ => destruct g eqn:G; [|discriminate] end. inv Hs. guards G.
+    match type of Hs with (if ?g then _ else _) = _ => destruct g eqn:G; [|discriminate] end. inv Hs. guards G. try lock_none.
     apply inv_setn; simpl; auto.
     + intros m [].
-    + intros Hh v b0 Hm. apply (j_lock _ I _ _ _ Hh Hm).
+    + intros _ v b0 [].
+    + intros Hh v b0 Hm; first [apply (j_lock _ I _ _ _ Hh Hm) | (pose proof (j_lock _ I _ _ _ Hh Hm); congruence)].
     + intros Hh b0 E. apply (j_prop _ I _ _ Hh). congruence.
-    + intros Hh v b0 E. apply (j_lockv _ I _ _ _ Hh E).
+    + intros Hh v b0 E; first [discriminate E | apply (j_lockv _ I _ _ _ Hh E)].
     + intros Hh b0 E. inv E. exists (vw (nodes s i)), (commit_senders (inbox (nodes s i)) (vw (nodes s i)) b0).
       split; [apply NoDup_nodup|]. split; [apply Nat.leb_le; assumption|].
       intros j Hj. apply in_commit_senders in Hj. apply (j_inbox _ I _ _ Hj).
   - (* ASendCV *)
-    match type of Hs with (if ?g then _ else _) = _ => destruct g eqn:G; [|discriminate] end. inv Hs. guards G.
+    match type of Hs with (if ?g then _ else _) = _ => destruct g eqn:G; [|discriminate] end. inv Hs. guards G. try lock_none.
     apply inv_setn; simpl; auto.
     + intros m [<-|H]; auto.
     + intros m [<-|[]]. simpl. split; [reflexivity|apply Nat.ltb_lt; assumption].
     + intros _ v b0 [H|[]]. discriminate.
-    + intros Hh v b0 Hm. apply (j_lock _ I _ _ _ Hh Hm).
+    + intros Hh v b0 Hm; first [apply (j_lock _ I _ _ _ Hh Hm) | (pose proof (j_lock _ I _ _ _ Hh Hm); congruence)].
     + intros Hh b0 E. apply (j_prop _ I _ _ Hh E).
-    + intros Hh v b0 E. apply (j_lockv _ I _ _ _ Hh E).
-    + intros Hh b0 E. destruct (j_acc _ I _ _ Hh E) as (v & S & H1 & H2 & H3). exists v, S. repeat split; auto.
-      intros j Hj. right. auto.
+    + intros Hh v b0 E; first [discriminate E | apply (j_lockv _ I _ _ _ Hh E)].
+    + intros Hh b0 E. destruct (j_acc _ I _ _ Hh E) as (v & S & H1 & H2 & H3). exists v, S; repeat split; auto; intros j Hj; right; auto.
   - (* ADoCV *)
-    match type of Hs with (if ?g then _ else _) = _ => destruct g eqn:G; [|discriminate] end. inv Hs. guards G.
+    match type of Hs with (if ?g then _ else _) = _ => destruct g eqn:G; [|discriminate] end. inv Hs. guards G. try lock_none.
     apply inv_setn; simpl; auto.
-    + intros m [].
-    + intros Hh v0 b0 Hm. apply (j_lock _ I _ _ _ Hh Hm).
-    + intros _ b0 E. discriminate.
-    + intros Hh v0 b0 E. apply (j_lockv _ I _ _ _ Hh E).
+    all: try solve [intros m [] | intros _ v0 b0 [] | intros _ b0 E; discriminate E | intros Hh v0 b0 E; discriminate E].
+    + intros Hh v0 b0 Hm. pose proof (j_lock _ I _ _ _ Hh Hm). congruence.
     + intros Hh b0 E. apply (j_acc _ I _ _ Hh E).
   - (* ADeliver *)
     destruct (mem_msg m (net s)) eqn:Em; [|discriminate]. inv Hs. apply mem_msg_in in Em.
@@ -246,7 +230,7 @@ Proof.
     + intros k b Hk. rewrite nodes_setn, net_setn. simpl. destruct (Nat.eqb_spec k i) as [->|Hne]; simpl; apply (j_acc _ I _ _ Hk).
     + intros m0. rewrite net_setn. simpl. apply (j_from _ I).
   - (* AFaulty *)
-    match type of Hs with (if ?g then _ else _) = _ => destruct g eqn:G; [|discriminate] end. inv Hs. guards G.
+    match type of Hs with (if ?g then _ else _) = _ => destruct g eqn:G; [|discriminate] end. inv Hs. guards G. try lock_none.
     constructor; simpl.
     + intros k m0 H. right. apply (j_inbox _ I _ _ H).
     + intros j v b Hj [E|H]; [|apply (j_lock _ I _ _ _ Hj H)]. subst m. simpl in G0. destruct Hj as [_ Hj]. congruence.
@@ -380,7 +364,7 @@ Definition ok_params (n f : nat) (pr : node) : params := mkP n f [] (fun v => (p
    of the property (4 and 7 validators; 10 to show the schedule is not special), any primary *)
 Lemma round0_completes :
   forallb (fun nf => forallb (fun pr =>
-     match run (ok_params (fst nf) (snd nf) pr) init (round0 (fst nf) pr 42) with
-     | Some s => all_accept (fst nf) s 42
+     match run (ok_params (fst nf) (snd nf) pr) init (round0 (fst nf) pr 42%N) with
+     | Some s => all_accept (fst nf) s 42%N
      | None => false end) (seq 0 (fst nf))) [(4, 1); (7, 2); (10, 3)]%nat = true.
 Proof. vm_compute. reflexivity. Qed.
